@@ -41,6 +41,9 @@ func main() {
 	}
 	debug.SetMaxStack(256 << 20)
 	c := core.NewCtx(*prop, *tier, *seed, *shard, *nshards, *out)
+	if kp := os.Getenv("VERIF_KNOWN"); kp != "" {
+		c.LoadKnown(kp)
+	}
 	if *replayIdx >= 0 {
 		c.Replaying, c.ReplayJob, c.ReplayIndex = true, *replayJob, *replayIdx
 	}
